@@ -367,7 +367,9 @@ def check_initialization_order(ctx: Ctx) -> None:
     con = cname(IC, None, "order_disciplines_from_default_inputs")
     sv = SymValues(f)
     grow = [c for c in walk_body(f) if isinstance(c, ast.Call) and isinstance(c.func, ast.Attribute) and c.func.attr in ("extend", "update", "append", "add") and isinstance(c.func.value, ast.Name) and c.args and "output_grammar" in norm_stmt(c.args[0])]
-    ctx.need(len(grow) >= 1, "order_disciplines_from_default_inputs: the extension of the available names by a discipline's outputs was not found")
+    if not grow:
+        ctx.ob("8.6-init-order", con, False, "the names made available by a scheduled discipline must be its OUTPUTS (available += discipline.io.output_grammar): nothing of that form is found", node=f, stmt="available += outputs of the scheduled discipline")
+        return
     avail = grow[0].func.value.id
     cfg = sv.cfg
     for g in grow:
